@@ -1,16 +1,49 @@
 (* C05 — totality: never panics or hangs; refuses exactly the erroneous inputs.
    Only statements, `exact` proofs, statement pins and assumption reports. *)
-From TV Require Import Conv Format Render RenderProofs ConvProofs Post.
+From TV Require Import Conv Format Render RenderProofs ConvProofs Post SafeBound AttrShape SchemaShape Total.
 From TV.gen Require Import CliGen.
 
 (* The full property over the model: for every tree the parser can return and every configuration the
    result is formatted text or the refusal, never a panic, and the refusal happens exactly for
-   erroneous trees.  The part that is NOT proved below is `no Panic site is reachable from a tree
-   satisfying the CST schema`; it is stated here so that the gap stays visible. *)
+   erroneous trees.  `swfc` is the part of the parser's output schema the converters rely on where they
+   unwrap or slice (a MathDelimited starts and ends with an expression child, a Binary holds an operator token
+   and none before its first operand, a FuncCall has an Args child whose left parenthesis, if any, comes first,
+   a FieldAccess has a Dot); the C05 check evaluates the extracted `swfc` on every tree the parser hands over. *)
 Definition C05_full : Prop :=
   forall (swidth : str -> N) (cfg : config) (t : tree),
     (erroneous t = true -> format_source swidth cfg t = FErr) /\
-    (erroneous t = false -> kind_of t = KMarkup -> exists out n, format_source swidth cfg t = FOk out n).
+    (erroneous t = false -> kind_of t = KMarkup -> swfc t = true ->
+       exists out n, format_source swidth cfg t = FOk out n).
+
+Theorem C05_total : C05_full.
+Proof.
+  intros swidth cfg t. split.
+  - intros He. apply format_err_iff_erroneous. exact He.
+  - intros He Hk Hw. destruct (format_total swidth cfg t He Hk Hw) as (out & n & E & _). eauto.
+Qed.
+Check C05_total :
+  forall (swidth : str -> N) (cfg : config) (t : tree),
+    (erroneous t = true -> format_source swidth cfg t = FErr) /\
+    (erroneous t = false -> kind_of t = KMarkup -> swfc t = true ->
+       exists out n, format_source swidth cfg t = FOk out n).
+Print Assumptions C05_total.
+
+(* no Panic site of the converter is reachable from any admissible request on a schema-conforming tree *)
+Theorem C05_no_panic_site :
+  forall swidth cfg t r n,
+    swfc t = true -> sreq_ok (build swidth cfg t) r ->
+    exists d n', call (build swidth cfg t) r n = Ok (d, n') /\ n' <= n + 3 * N.of_nat (tree_size t).
+Proof. exact conversions_total. Qed.
+Check C05_no_panic_site :
+  forall swidth cfg t r n,
+    swfc t = true -> sreq_ok (build swidth cfg t) r ->
+    exists d n', call (build swidth cfg t) r n = Ok (d, n') /\ n' <= n + 3 * N.of_nat (tree_size t).
+Print Assumptions C05_no_panic_site.
+
+(* the attribute passes keep the schema clause and the node count *)
+Theorem C05_schema_survives_annotation : forall t, swfc (annotate t) = swfc t /\ tree_size (annotate t) = tree_size t.
+Proof. intros t. split; [apply swfc_annotate|apply tree_size_annotate]. Qed.
+Print Assumptions C05_schema_survives_annotation.
 
 (* (1) refusal iff syntax errors *)
 Theorem C05_refuses_iff_erroneous :
@@ -70,4 +103,7 @@ Example C05_example_accepts :
 Proof. vm_compute. reflexivity. Qed.
 Example C05_example_refuses :
   format_source (fun s => N.of_nat (length s)) cfg_default (Inner KMarkup [Leaf KError [41] no_attrs] no_attrs) = FErr.
+Proof. vm_compute. reflexivity. Qed.
+
+Example C05_example_schema : swfc ex_ok = true.
 Proof. vm_compute. reflexivity. Qed.
